@@ -74,7 +74,7 @@ def tags(sc, pid):
         if a["remove"] and a["uptodate"]:
             t.add("prune+uptodate")
         rm = pairs(a["remove"])
-        post = {x["name"]: x["head"] for x in pred["index"]}
+        post = {x["name"]: x["head"] for x in final[-1]["pred"]["index"]}   # after the -f run
         for x in pre:
             if (x["name"], x["src"]) in rm and c["op"] == "sync" and post.get(x["name"]) == x["head"]:
                 t.add("stale-same-head")
